@@ -1,5 +1,5 @@
 // c18_inv: observation driver for property C18 (inverse modelling).
-//   c18_inv <jobs-file>       jobs-file: <jobid> \t <database path> \t <input file path>
+//   c18_inv <jobs-file>       jobs-file: <jobid> \t <database path> \t <input file path> [\t oracle]
 // A fresh IPhreeqc instance per job.  The driver subclasses IPhreeqc and overrides the virtual
 // PHRQ_io callback fpunchf(name, format, double): punch_model() calls it with name "Sum_resid" as the
 // first cell of every reported model, while the solution vector of that model (inv_delta1), the
@@ -57,7 +57,7 @@ public:
   int nmodels;
   bool problem_done;
   std::ostringstream problem;
-  Spy() : nmodels(0), problem_done(false) {}
+  Spy() : nmodels(0), problem_done(false), oracle_done(false), want_oracle(false), want_x(false) {}
 
   class inverse *current() {
     Phreeqc *p = this->PhreeqcPtr;
@@ -164,6 +164,46 @@ public:
     nmodels++;
   }
 
+  // ---- oracle tabulation: called from the heading hook, i.e. after setup_inverse() and before
+  // solve_inverse().  For every mask that contains the final-solution bit, solve_with_mask() is
+  // called exactly as solve_inverse()/minimal_solve() call it and (kode==0, support) is recorded,
+  // support being extracted with the same equal(inv_delta1[..],0,TOL) tests the search uses.
+  std::ostringstream oracle; bool oracle_done; std::string oracle_note;
+  void tabulate() {
+    Phreeqc *p = this->PhreeqcPtr;
+    class inverse *inv = current();
+    oracle_done = true;
+    if (!inv) { oracle_note = "no current inverse"; return; }
+    size_t nph = inv->phases.size(), ns = inv->count_solns, nb = nph + ns;
+    if (nb > 13 || nb < 2) { oracle_note = "too many bits"; return; }
+    size_t n = p->count_unknowns;
+    p->klmd = p->max_row_count - 2; p->nklmd = n + p->klmd; p->n2d = n + 2;
+    p->inv_cu.assign(2 * p->nklmd, 0.0); p->inv_iu.resize(2 * p->nklmd); p->inv_is.resize(p->klmd);
+    p->col_back.resize(p->max_column_count); p->row_back.resize(p->max_row_count);
+    int calls = p->count_calls;
+    unsigned long top = 1ul << (nb - 1);
+    bool first = true;
+    try {
+      for (unsigned long mask = 0; mask < (1ul << nb); mask++) {
+        if (!(mask & top)) continue;
+        int rc = p->solve_with_mask(inv, mask);
+        unsigned long sup = 0;
+        for (size_t i = 0; i < ns; i++) if (p->equal(p->inv_delta1[i], 0.0, TOL) == FALSE) sup |= 1ul << (i + nph);
+        for (size_t i = 0; i < nph; i++) if (p->equal(p->inv_delta1[i + ns], 0.0, TOL) == FALSE) sup |= 1ul << i;
+        oracle << (first ? "" : ",") << "[" << mask << "," << (rc == OK ? 1 : 0) << "," << sup;
+        if (want_x) { oracle << ",["; for (size_t i = 0; i < n; i++) oracle << (i ? "," : "") << hx(p->inv_delta1[i]); oracle << "]"; }
+        oracle << "]";
+        first = false;
+      }
+    } catch (...) { oracle_note = "exception in solve_with_mask"; }
+    p->count_calls = calls;
+  }
+  virtual void punch_msg(const char *str) {
+    if (!oracle_done && want_oracle && str && this->PhreeqcPtr->state == INVERSE && strstr(str, "Sum_resid")) tabulate();
+    IPhreeqc::punch_msg(str);
+  }
+  bool want_oracle, want_x;
+
   virtual void fpunchf(const char *name, const char *format, double d) {
     if (name && strcmp(name, "Sum_resid") == 0 && this->PhreeqcPtr->state == INVERSE) snapshot();
     IPhreeqc::fpunchf(name, format, d);
@@ -188,6 +228,8 @@ int main(int argc, char **argv) {
     std::ostringstream o;
     o << "{\"job\":" << jstr(id);
     Spy *ip = new Spy();
+    ip->want_oracle = f.size() > 3 && f[3].find("oracle") != std::string::npos;
+    ip->want_x = f.size() > 3 && f[3].find("oraclex") != std::string::npos;
     int n = ip->LoadDatabase(db.c_str());
     if (n != 0) { o << ",\"dberr\":" << jstr(ip->GetErrorString()) << "}"; std::cout << o.str() << std::endl; delete ip; continue; }
     ip->SetOutputStringOn(true);
@@ -213,6 +255,7 @@ int main(int argc, char **argv) {
     o << ",\"out\":" << jstr(ip->GetOutputString());
     o << ",\"problem\":" << (ip->problem_done ? ip->problem.str() : std::string("null"));
     o << ",\"models\":[" << ip->models.str() << "]";
+    o << ",\"oracle\":[" << ip->oracle.str() << "],\"oracle_note\":" << jstr(ip->oracle_note);
     o << "}";
     std::cout << o.str() << std::endl;
     delete ip;
